@@ -137,10 +137,12 @@ func runHistory(rec *vr.Rec, c hcase) {
 		}
 		p.Drain()
 		// before any housekeeping: state that belongs to a CALL (its token continuation, its pending-confirmable entry,
-		// its limiter slot, its per-message-ID lock, its observation) must be gone as soon as every call has returned and
+		// its limiter slot, its observation) must be gone as soon as every call has returned and
 		// nothing is in flight any more; only caches with a lifetime of their own may wait for the housekeeping
 		pre := p.Cli.VerifSizes()
-		for _, table := range []string{"token_handlers", "mid_handlers", "limiter_entries", "msgid_locks", "observations"} {
+		// (the per-message-ID lock table is not in this list: an entry exists while ANY received message is being
+		// processed, e.g. a late duplicate the default handler is looking at right now - transient, not per call)
+		for _, table := range []string{"token_handlers", "mid_handlers", "limiter_entries", "observations"} {
 			if n := pre[table]; n != 0 {
 				rec.Violation("C13/"+c.Kind+"/client/outlives-the-call/"+table, fmt.Sprintf("all %d exchanges have returned and nothing is in flight, housekeeping has not run yet (repeat %d): %s", len(c.Exchanges), rep, sizesStr(pre)), c)
 				return
